@@ -137,8 +137,10 @@ def schema_tree():
     return tag_tree(strip(JSON_SCHEMA)), JSON_SCHEMA
 
 
-def roundtrip(cd):
-    """to_json_data -> strict dumps -> loads -> from_json_data, with everything observable"""
+def roundtrip(cd, lenient_code=False):
+    """to_json_data -> strict dumps -> loads -> from_json_data, with everything observable.
+    lenient_code (hand-built shapes, which need not be encodable): 'identical code' also holds when
+    to_code() refuses both the data and its reloaded copy with the same exception type"""
     from code_data import CodeData
 
     r = {"to_exc": "", "dumps_exc": "", "from_exc": "", "eq": False, "hash": False, "code": False, "code_exc": "",
@@ -183,6 +185,15 @@ def roundtrip(cd):
         r["hash"] = hash(back) == hash(cd)
     except BaseException as ex:  # noqa
         r["from_exc"] = "compare:" + type(ex).__name__
+    if lenient_code:
+        outs = []
+        for x in (cd, back):
+            try:
+                outs.append(("ok", json.dumps(cpy.keyfp(x.to_code()), sort_keys=True)))
+            except BaseException as ex:  # noqa
+                outs.append(("exc", type(ex).__name__))
+        r["code"] = outs[0] == outs[1]
+        return r, doc
     try:
         c1 = cd.to_code()
         c2 = back.to_code()
@@ -266,6 +277,116 @@ def all_fields_carrier():
     )
 
 
+# --------------------------------------------------------------------------- document shapes (MC_Doc / JsonDoc)
+
+
+def _s(a):
+    return ATOM_VALUES[a] if a in ATOM_VALUES else a
+
+
+def _opt(o):
+    return o[0] if o else None
+
+
+def abs_arg(a):
+    from code_data import Cellvar, Constant, Freevar, Jump, Name, NoArg, Varname
+
+    k = a[0]
+    if k == "noarg":
+        return NoArg(a[1])
+    if k == "int":
+        return a[1]
+    if k == "jump":
+        return Jump(a[1], a[2])
+    if k == "name":
+        return Name(_s(a[1]), _opt(a[2]))
+    if k == "varname":
+        return Varname(_s(a[1]), _opt(a[2]))
+    if k == "cellvar":
+        return Cellvar(_s(a[1]), _opt(a[2]))
+    if k == "freevar":
+        return Freevar(_s(a[1]))
+    if k == "const":
+        return Constant(term_value(a[1]), _opt(a[2]))
+    if k == "code":
+        return Constant(abs_code_data(a[1]), _opt(a[2]))
+    raise ValueError(a)
+
+
+def abs_code_data(c):
+    """the real CodeData of an abstract one printed by MC_Doc (see JsonDoc.tla)"""
+    from code_data import AdditionalLine, Args, CodeData, Function, Instruction
+
+    blocks = tuple(tuple(Instruction(i["name"], abs_arg(i["arg"]), _n_args_override=_opt(i["nargs"]), line_number=_opt(i["line"]),
+                                     _line_offsets_override=tuple(i["lo"])) for i in b) for b in c["blocks"])
+    tp = None
+    if c["type"][0] == "fn":
+        a = c["type"][1]
+        tp = Function(Args(tuple(_s(x) for x in a["po"]), tuple(_s(x) for x in a["pk"]), _s(_opt(a["va"])) if a["va"] else None,
+                           tuple(_s(x) for x in a["ko"]), _s(_opt(a["vk"])) if a["vk"] else None),
+                      _s(c["type"][2][0]) if c["type"][2] else None, _opt(c["type"][3]))
+    al = None
+    if c["addline"]:
+        al = AdditionalLine(_opt(c["addline"][0][0]), tuple(c["addline"][0][1]))
+    return CodeData(blocks=blocks, filename=_s(c["filename"]), first_line_number=c["first"], name=_s(c["name"]),
+                    stacksize=c["stacksize"], type=tp, freevars=tuple(_s(x) for x in c["freevars"]),
+                    future_annotations=c["fut"], _nested=c["nested"], _additional_line=al,
+                    _additional_args=tuple(abs_arg(x) for x in c["addargs"]))
+
+
+def doc_tree(x, const=False):
+    """a whole document as JsonDoc.tla writes it: constants by atom name (atoms_tree), skeleton
+    integers in decimal, strings by atom name where one matches and literally otherwise"""
+    atoms_tree(None)  # make sure the table exists
+    t = type(x)
+    if t is dict:
+        if set(x) == {"string"} and type(x["string"]) is str:
+            return atoms_tree(x)
+        out = []
+        for k, v in x.items():
+            if k == "constant" and not (type(v) is dict and "filename" in v):
+                out.append([k, atoms_tree(v)])
+            else:
+                out.append([k, doc_tree(v)])
+        return ["o", out]
+    if t is list:
+        return ["a", [doc_tree(v) for v in x]]
+    if t is str:
+        return ["s", _LEAF_ATOM.get(("s", x), x)]
+    if t is bool:
+        return ["b", "true" if x else "false"]
+    if t is int:
+        return ["i", str(x)]
+    if x is None:
+        return ["n", "none"]
+    return ["x", t.__name__]
+
+
+def _decodable(cd):
+    """is this hand-built data something decoding can give (a fixpoint of to_code -> from_code)?"""
+    from code_data import CodeData
+
+    try:
+        return CodeData.from_code(cd.to_code()) == cd
+    except BaseException:  # noqa
+        return False
+
+
+def shapes_to_file(shapes, path):
+    """shapes: [[id, abstract CodeData]] printed by MC_Doc"""
+    evs = []
+    built = 0
+    for sid, a in shapes:
+        try:
+            cd = abs_code_data(a)
+        except BaseException:  # noqa: a shape this interpreter's library refuses to construct (positional-only on 3.7)
+            continue
+        built += 1
+        evs.append(_event("shape:%s:%s" % (VER, sid), cd, abs_=a))
+    _write(evs, path)
+    return [len(evs), sum(1 for e in evs if e["decodable"])]
+
+
 CONST_POS = ["operand", "additional", "nested"]
 STR_POS = ["name", "varname", "docstring", "freevar", "cellvar", "filename", "codename"]
 
@@ -297,10 +418,13 @@ def const_subtree(doc, pos):
     return None
 
 
-def _event(id_, cd, term=None, pos=""):
-    r, doc = roundtrip(cd)
+def _event(id_, cd, term=None, pos="", abs_=None):
+    r, doc = roundtrip(cd, lenient_code=abs_ is not None)
     e = {"id": id_, "ver": VER, "kind": "doc", "has_term": term is not None, "term": term if term is not None else ["none"],
-         "pos": pos, "broken": False, "js_ok": True}
+         "pos": pos, "broken": False, "js_ok": True, "has_abs": abs_ is not None, "abs": abs_ if abs_ is not None else [],
+         "dtree": doc_tree(doc) if (abs_ is not None and doc is not None) else ["x", "none"], "decodable": True}
+    if abs_ is not None:
+        e["decodable"] = _decodable(cd)
     e.update(r)
     sub = const_subtree(doc, pos) if (doc is not None and pos) else None
     e["ctree"] = atoms_tree(sub) if (term is not None and doc is not None) else ["x", "none"]
@@ -344,7 +468,8 @@ def terms_to_file(terms, path):
             d["first_line_number"] = "1"
         evs.append({"id": e["id"] + ":broken", "ver": VER, "kind": "doc", "has_term": False, "term": ["none"], "pos": "",
                     "broken": True, "js_ok": True, "to_exc": "", "dumps_exc": "", "from_exc": "", "eq": False, "hash": False,
-                    "code": False, "code_exc": "", "tree": tag_tree(d), "doc": d, "ctree": ["x", "none"], "absent": False})
+                    "code": False, "code_exc": "", "tree": tag_tree(d), "doc": d, "ctree": ["x", "none"], "absent": False,
+                    "has_abs": False, "abs": [], "dtree": ["x", "none"], "decodable": True})
     _write(evs, path)
     return len(evs)
 
